@@ -271,7 +271,7 @@ class AstBuilder:
             tokens = list(line_tokens)
 
             # Trim trailing empty lines
-            while tokens and not tokens[-1].matched_text:
+            while tokens and tokens[-1].line.is_empty():
                 tokens.pop()
 
             return "\n".join(token.matched_text for token in tokens)
